@@ -716,8 +716,17 @@ func c03R14(c *Ctx) {
 					return
 				}
 				// only the wait of the aborted run: reached through the ctx.Done() case
-				if guardedByCtxDone(r.I) == false {
-					return
+				if !guardedByCtxDone(r.I) {
+					// the aborted branch was extracted into a function: its call site is in the ctx.Done() case
+					atSite := false
+					for _, st := range c.CG().callers[fn] {
+						if st.Instr.Parent() != nil && guardedByCtxDone(st.Instr) {
+							atSite = true
+						}
+					}
+					if !atSite {
+						return
+					}
 				}
 				n++
 				c.verdict(ns >= defaultMS*1_000_000, rule, fmt.Sprintf("abort-wait@%s#%d", c.fnName(fn), n), c.instrPos(r.I), fmt.Sprintf("waits %d ms, the default closure timeout is %d ms", ns/1_000_000, defaultMS),
